@@ -1,1 +1,33 @@
-fn main() {}
+//! Monitors for the ec-core / ec-linear properties: C06–C08, C10–C18.
+
+mod c06;
+mod c07;
+mod c08;
+mod c10;
+mod c11;
+mod c12;
+mod c13;
+mod c14;
+mod common;
+mod shapes;
+
+use vh_core::Args;
+
+fn main() {
+    let args = Args::parse();
+    let code = match args.prop.as_str() {
+        "C06" => c06::run(&args),
+        "C07" => c07::run(&args),
+        "C08" => c08::run(&args),
+        "C10" => c10::run(&args),
+        "C11" => c11::run(&args),
+        "C12" => c12::run(&args),
+        "C13" => c13::run(&args),
+        "C14" => c14::run(&args),
+        other => {
+            eprintln!("vh-ec: unknown property {other}");
+            2
+        }
+    };
+    std::process::exit(code);
+}
